@@ -774,6 +774,10 @@ func (c *Conn) advanceFrame() (int, error) {
 
 	if c.readRemaining > 0 {
 		if _, err := io.CopyN(io.Discard, c.br, c.readRemaining); err != nil {
+			if err == io.EOF {
+				// the stream ended inside the frame that is being skipped
+				err = errUnexpectedEOF
+			}
 			return noFrame, err
 		}
 	}
